@@ -69,6 +69,7 @@ def _case(draw, kind):
                 # the constants passed to the rhs may differ from step to step (k scales f): a slope cached from the previous call
                 # belongs to the previous constants
                 ks=[draw(st.sampled_from([1.0, 1.0, 0.5, -1.5])) for _ in range(3)],
+                inplace=draw(st.booleans()),          # the same dict object, edited in place between the calls (system.constants['k'] = ...)
                 stiff=(draw(st.sampled_from([1.0, 1.0, 1.0, 10.0, 40.0])) if not linear else draw(st.sampled_from([1.0, 10.0, 40.0, 100.0, 400.0]))) if kind == "implicit" else 1.0,
                 linear=linear,
                 jump=[draw(st.booleans()) for _ in range(2)], jump_y=draw(PR.state(rhs["shape"])), jump_t=draw(st.sampled_from([0.5, -1.25, 7.0])))
@@ -140,14 +141,20 @@ def check(case):
     else:
         rhs = DiffRHS(lambda t, y, **kw: f(t, y, **kw))
     returned_steps = 0
+    shared_constants = {}
     Lf = f.lipschitz()
 
     for step_no in range(case["nsteps"]):
         y_in = y.copy()
         t_in = dt(t)
         kbox[0] = case.get("ks", [1.0, 1.0, 1.0])[step_no]
+        if case.get("inplace"):
+            shared_constants["k"] = kbox[0]
+            cdict = shared_constants
+        else:
+            cdict = {"k": kbox[0]}
         try:
-            next_dt, (dT, dY) = integ(rhs, t, y, {"k": kbox[0]}, h)
+            next_dt, (dT, dY) = integ(rhs, t, y, cdict, h)
         except FailedToMeetTolerances as e:
             labels.append("reported_failure")
             if case.get("linear"):
@@ -166,6 +173,26 @@ def check(case):
             origin, where = exc_origin(e)
             if origin == "harness":
                 raise
+            if isinstance(e, np.linalg.LinAlgError) and kind == "implicit":
+                # an exactly singular stage system (I - h' A (x) J) at the requested step or at one of the retried steps
+                # h' = 0.8^j h (LobattoIIIB2 on y' = -5 y: h' = -0.4 gives 1 - h' J / 2 = 0) has no solution: raising is a
+                # report of failure, not a wrong step
+                Atab = M.tableau(name)[1]
+                Jf = np.asarray(f.jac(float(t), np.asarray(y, dtype=np.float64)), dtype=np.float64).reshape(f.n, f.n)
+                conds = [float(np.linalg.cond(np.eye(Atab.shape[0] * f.n) - float(h) * 0.8 ** j * np.kron(Atab, Jf))) for j in range(12)]
+                if max(conds) > 1e12:
+                    labels.append("reported_failure:singular_stage_system")
+                    break
+                if case.get("linear") and max(conds) <= 1e6:
+                    viols.append(V("linear_stage_system_unsolved", "{} step {}: the stage equations of a LINEAR problem (condition number <= {:.1e} at every retried step) raised {!r}".format(
+                        name, step_no, max(conds), e), sig, **attrs))
+                    break
+                if not case.get("linear"):
+                    # the built-in dogleg (longdouble path) can drive its Broyden matrix singular on an ill-conditioned but
+                    # solvable nonlinear stage system: the linear-algebra error is the integrators' failure protocol (an
+                    # OdeSystem reports it as FailedIntegration) - no step is handed back, which is all C02 demands
+                    labels.append("reported_failure:solver_raised_linalg")
+                    break
             viols.append(V("step_raised", "{} step {} raised {!r} (t={}, h={}, y={})".format(name, step_no, e, float(t), float(h), y.tolist()),
                            sig + exc_sig(e), **attrs))
             break
